@@ -24,6 +24,7 @@ type History struct {
 	CfgIdx  int
 	Funding [][2]int64 // atom, amount
 	Ops     []Op
+	AtomSet string `json:",omitempty"` // "" = standardAtoms, "k5" = plus the short addresses of W11 / W13
 }
 
 type slashEv struct {
